@@ -2,7 +2,7 @@
 # tools/seeddev.sh <seed> [ID...]: evaluate a seed without touching /repo: the patch is applied to a scratch worktree
 # (/tmp/cleanrepo, created on demand) and the checks run from a copy of the current /verif working tree (/tmp/vdev)
 # with VERIF_REPO pointing there. For use while something else is using /repo; results are not evidence.
-set -e
+set -u
 seed=$1; shift
 ids=${@:-$(python3 -c "import json;print(json.load(open('/verif/seeded/$seed/meta.json'))['property'])")}
 [ -d /tmp/cleanrepo ] || git -C /repo worktree add -q --detach /tmp/cleanrepo HEAD
